@@ -199,7 +199,7 @@ def show_str_list(l) -> str:
 
 def show_err(e: BaseException) -> str:
     known = {"MolfileParserException", "TucanParserException", "KeyError", "IndexError", "ValueError",
-             "AssertionError", "RecursionError", "TypeError"}
+             "AssertionError", "RecursionError", "TypeError", "OSError"}
     # the library's own exception types count with their subclasses ("the parser's own exception type")
     for cls in type(e).__mro__:
         if cls.__name__ in ("TucanParserException", "MolfileParserException"):
